@@ -199,7 +199,8 @@ def c04_4(ctx, ss):
                                            "all metadata forwarded (**self.metadata)" if okm else "the metadata (model, parameters, user entries) is not forwarded to the conjugate mode")
     # the constructor stores every extra keyword
     init, iflow = fn(ss, DECAY, "DecayMode.__init__")
-    upd = [x for x in pf.calls_in(init.node) if txt(x.func) == "self.metadata.update"]
-    oku = bool(upd) and any((kw.arg is None and txt(kw.value) == "info") for x in upd for kw in x.keywords) or any(x.args and txt(x.args[0]) == "info" for x in upd)
+    from .common import dict_entries
+    ents, _st, econd = dict_entries(init, iflow, "self.metadata")
+    oku = [txt(v) for k_, v in ents if k_ == "**"] == ["info"] and not econd
     (ctx.holds if oku else ctx.violation)("C04.4", ckey(init, None, "stores-info"), where(init, init.node),
                                            "DecayMode.__init__ stores every extra keyword in metadata" if oku else "DecayMode.__init__ does not store all extra keywords")
